@@ -39,6 +39,9 @@ pub struct Ctx {
     pub shard: (u64, u64),
     pub n: u64,
     pub args: Vec<String>,
+    /// "" = the normal run; "nobz" = this binary was built with `--no-default-features`, i.e. against rpm-rs with
+    /// ITS default cargo features (bzip2 support not compiled in): generators emit their feature-sensitive subset
+    pub variant: String,
 }
 
 impl Ctx {
